@@ -19,6 +19,13 @@ _CUR = [None]            # the Sched currently executing (one at a time per proc
 _INSTALLED = [False]
 
 
+LOCK_TIMEOUT_S = 8
+
+
+class LockTimeout(RuntimeError):
+    """a library lock acquired outside the scheduler stayed held (a previous operation left it locked)"""
+
+
 class BSem:
     """binary semaphore on a raw _thread lock (threading.Semaphore would itself use the patched threading.Lock)"""
 
@@ -56,6 +63,12 @@ class HybridLock:
     def acquire(self, blocking=True, timeout=-1):
         s = self._sched()
         if s is None:
+            if blocking and timeout == -1:
+                # outside a controlled execution a library lock that is never released would hang the whole check:
+                # report it instead (the library's critical sections are microseconds long)
+                if not self.real.acquire(True, LOCK_TIMEOUT_S):
+                    raise LockTimeout("a library lock was not released within %d s" % LOCK_TIMEOUT_S)
+                return True
             return self.real.acquire(blocking, timeout)
         tid = s.tids[_thread.get_ident()]
         s.point(tid, "lock.acquire")
